@@ -36,9 +36,9 @@ def engine_flags(e):
 # runs per (tier, engine, property); C14 counts base plans (each is enumerated)
 RUNS = {
     'quick': {'evloop': 60000, 'netio': 40000, 'http': 30000, 'containers': 60000,
-              'entropy': 1500, 'secrets': 20000, 'secrets_hw': 10000},
+              'entropy': 1500, 'secrets': 20000, 'secrets_hw': 10000, 'secrets_o2': 10000},
     'thorough': {'evloop': 2000000, 'netio': 1500000, 'http': 1000000, 'containers': 3000000,
-                 'entropy': 60000, 'secrets': 1000000, 'secrets_hw': 300000},
+                 'entropy': 60000, 'secrets': 1000000, 'secrets_hw': 300000, 'secrets_o2': 300000},
 }
 RUNS_C14 = {
     'quick': {'evloop': 700, 'netio': 400, 'http': 200, 'containers': 400},
@@ -98,6 +98,7 @@ def engine_exists(name):
 def build_engine(name, san=True):
     """Build (if needed) and return the path of the engine binary for REPO's current tree."""
     e = ENGINES[name]
+    san = san and not e.get('nosan')
     key = engine_key(name, san)
     d = os.path.join(BUILD, '%s-%s%s' % (name, key, '' if san else '-plain'))
     exe = os.path.join(d, name)
@@ -332,9 +333,10 @@ class Minimiser:
         self.exe, self.prop, self.oracle, self.sig, self.af = exe, prop, oracle, sig, af
         self.workdir, self.budget, self.execs = workdir, budget, 0
         self.af_line = None
+        self.deadline = time.time() + 90      # wall-clock cap: slow failing runs get a coarser minimum
 
     def fails(self, lines):
-        if self.execs >= self.budget:
+        if self.execs >= self.budget or time.time() > self.deadline:
             return False
         if self.af_line is not None and self.af_line not in lines:
             return False
